@@ -68,7 +68,7 @@ def openWriter (c : Cfg) (d : Disk) (p : Path) (nlNew bs : Nat) : Option (WSt ×
   | none => some fresh
   | some f =>
     match headerOf f with
-    | none => if c.truncatesTornTail then some fresh else none
+    | none => if c.truncatesTornTail && f.length < 64 then some fresh else none   -- ≥ 64 bytes with a bad header: an error
     | some nl =>
       if c.truncatesTornTail then
         match validLen f with
